@@ -1,0 +1,11 @@
+//go:build verif
+
+package bitmap1024
+
+import "github.com/pinealctx/neptune/bitmap1024/internal"
+
+// VerifSetSparseMagic sets the popcount threshold that selects the sparse or
+// the dense traversal branch of every iterator (verification hook).
+func VerifSetSparseMagic(n int32) {
+	internal.SetSparseMagic(n)
+}
